@@ -751,13 +751,11 @@ Proof.
 Qed.
 
 (* the values the property lists.  Excluded, because the database / the text file refuses them
-   (finding K9 is about what happens then): for the two SQL formats an integer outside SQLite's
-   64-bit INTEGER; for every format except JSON a string holding a lone surrogate *)
+   (finding K9 is about what happens then): for every format except JSON a string holding a
+   lone surrogate.  Integers of any size are fine everywhere (sql_int). *)
 Definition encodable (f : fmt) (v : value) : bool :=
   match v with
   | VOther => false
-  | VInt z => match f with FDb | FSql => int64 z | _ => true end
-  | VRef _ i => match f with FDb | FSql => int64 i | _ => true end
   | VStr s | VDec s => match f with FJson => true | _ => encodable_text s end
   | _ => true
   end.
@@ -770,7 +768,12 @@ Proof.
     try (unfold encode; cbn [cleanup flatten type_of encoders enc_get enc_set base_encoders
                               vtype_eqb enc_int enc_noop enc_str enc_format_datetime py_str bind render];
          unfold utf8_text;
-         rewrite ?H, ?et_fmt_dt, ?et_app, ?et_string, ?et_dec; eexists; reflexivity).
+         rewrite ?H, ?et_fmt_dt, ?et_app, ?et_string, ?et_dec; eexists; reflexivity);
+    try (unfold encode; cbn [cleanup flatten type_of encoders enc_get enc_set base_encoders
+                              vtype_eqb enc_sql_int bind];
+         unfold sql_int;
+         match goal with |- context [if ?c then VInt _ else _] => destruct c eqn:E end;
+         cbn [render bind]; unfold utf8_text, int64; rewrite ?E, ?et_dec; eexists; reflexivity).
 Qed.
 
 (* ------------------------------------------------------------------ application layer *)
